@@ -144,6 +144,26 @@ def _cases_core(rng, tier):
         for bad_s in common.edge_variants(good):
             yield "xk_parse %s 0 s %s" % ("P" if prv else "p", sx(bad_s)), "edge-character-parse"
             yield "wallet xkey:%s" % sx(bad_s), "edge-character-wallet"
+    # extended keys whose Base58Check TEXT has an interior, aligned block of the zero digit '1' (the chain code is
+    # solved for it, common.solve_zero_block): block-wise / padded encoders lose or invent such digits
+    for name in (["xpub", "tprv", "zpub"] if tier == "quick" else list(ALL)):
+        prv = name.endswith("prv")
+        k = rand_scalar(rng)
+        key33 = (b"\x00" + k.to_bytes(32, "big")) if prv else pub_sec(k)
+        for a_, b_ in ((40, 50), (30, 40), (20, 30), (35, 40), (10, 20), (45, 50)):
+            depth, fp, index = 1, b"\x01\x02\x03\x04", 7
+            head = ALL[name].to_bytes(4, "big") + bytes([depth]) + fp + index.to_bytes(4, "big")
+            shift = (33 + 4) * 8
+            known = (int.from_bytes(head, "big") << (256 + shift)) + (int.from_bytes(key33, "big") << 32)
+            f_ = common.solve_zero_block(rng, known, 256, shift, a_, b_, unknown_bits=32)
+            if f_ is None:
+                continue
+            chain = f_.to_bytes(32, "big")
+            spec = "%s:%s:%s:%d:%d:%s:%s" % ("P" if prv else "p", hx(key33 if not prv else k.to_bytes(32, "big")), hx(chain),
+                                              depth, index, "1" if name in VERS_TEST else "0", hx(fp))
+            yield "xk_ser %s - %s %d" % (spec, "prv" if prv else "pub", ALL[name]), "zero-digit-block-xkey"
+            s_ = b58check_enc(payload(ALL[name], depth, fp, index, chain, key33))
+            yield "xk_parse %s 0 s %s" % ("P" if prv else "p", sx(s_)), "zero-digit-block-xkey-parse"
     # helper interleaving: the public helpers of the version table are asked about UNKNOWN versions before (and after)
     # a wallet is requested from a key carrying that version — asking a question must not teach the table anything
     for _ in range(6 if tier == "quick" else 100):
